@@ -5,7 +5,7 @@ from vlib import Rng
 from simgen import hx, addr3, path_hex, tree_nodes, find_path, Node
 
 WRAP = ("usleep", "pthread_create", "pthread_join")
-KNOWN_KEYS = ("enum.restart-stale", "enum.level3-interface", "lost.unknown-interface", "reset.stale-connected")
+KNOWN_KEYS = ("enum.level3-interface", "lost.unknown-interface")
 
 # ------------------------------------------------------------------ case generation
 def gen_case(r, idx, tmpdir):
@@ -121,6 +121,7 @@ def judge(case, lines):
     final = case["trees"][case["final"]]
     truth = simgen.truth_of(final, cfg)
     deep = {i for i, b in enumerate(cfg["boards"]) if b["uid"][0] & 0x80 and i in truth and truth[i][2] != 0}
+    flags = {}
     stale = {}      # board -> key of the finding class that left it connected although it is gone (follow-on effects keep the key)
     def compare(tab, truth, where, key_stale):
         for i in range(nb):
@@ -132,9 +133,12 @@ def judge(case, lines):
                 key = stale.setdefault(i, key_stale)
                 bad.append((key, "%s: board b%d is not on the bus but reported connected at %r" % (where, i, got)))
             elif i in deep and got == (exp[0], exp[1], 0):
+                stale[i] = "enum.level3-interface"; flags["level3"] = True
                 bad.append(("enum.level3-interface", "%s: interface board b%d on the third level has address %r but is reported at %r" % (where, i, exp, got)))
             else:
-                bad.append(("table-mismatch", "%s: board b%d expected %r got %r" % (where, i, exp, got)))
+                # a level-3 interface sits at its parent's address, so its loss also disconnects its siblings: same class
+                key = "enum.level3-interface" if flags.get("level3") else "table-mismatch"
+                bad.append((key, "%s: board b%d expected %r got %r" % (where, i, exp, got)))
     tab = board_table(sec.get("dump0", []))
     compare(tab, truth, "after start-up", "enum.restart-stale" if case["changes"] else "enum.stale")
     # notices: state and acknowledgement
